@@ -63,19 +63,32 @@ def main(argv=None) -> int:
             results.append(core.run_unit(prop, u, args.tier, seed))
     else:
         ctxm = mp.get_context("spawn")
-        with cf.ProcessPoolExecutor(max_workers=jobs, mp_context=ctxm) as ex:
-            futs = {ex.submit(core.run_unit, prop, u, args.tier, seed): u for u in units}
-            try:
-                for f in cf.as_completed(futs, timeout=UNIT_TIMEOUT_S[args.tier]):
-                    u = futs[f]
-                    try:
-                        results.append(f.result())
-                    except Exception as e:  # worker died
-                        herr.append(f"unit {u.name}: worker failed: {e!r}")
-            except cf.TimeoutError:
-                herr.append("time limit for the whole run exceeded; unfinished units: " + ", ".join(futs[f].name for f in futs if not f.done()))
-                for p in list(getattr(ex, "_processes", {}).values()):
-                    p.terminate()
+        pending, attempt = list(units), 0
+        while pending:
+            attempt += 1
+            died = []
+            # a worker killed from outside (e.g. by the kernel's out-of-memory killer when other jobs share the machine) breaks the whole
+            # pool: the units it took down are run once more in a fresh, smaller pool before anything is reported
+            with cf.ProcessPoolExecutor(max_workers=jobs if attempt == 1 else max(1, min(4, jobs)), mp_context=ctxm) as ex:
+                futs = {ex.submit(core.run_unit, prop, u, args.tier, seed): u for u in pending}
+                try:
+                    for f in cf.as_completed(futs, timeout=UNIT_TIMEOUT_S[args.tier]):
+                        u = futs[f]
+                        try:
+                            results.append(f.result())
+                        except Exception as e:  # worker died
+                            if attempt == 1:
+                                died.append(u)
+                            else:
+                                herr.append(f"unit {u.name}: worker failed twice: {e!r}")
+                except cf.TimeoutError:
+                    herr.append("time limit for the whole run exceeded; unfinished units: " + ", ".join(futs[f].name for f in futs if not f.done()))
+                    for p in list(getattr(ex, "_processes", {}).values()):
+                        p.terminate()
+                    died = []
+            if died:
+                print(f"NOTE property={prop} {len(died)} unit(s) lost their worker process; running them again in a smaller pool", flush=True)
+            pending = died
     for r in results:
         if r.get("harness_error"):
             herr.append(f"unit {r['unit']}:\n{r['harness_error']}")
